@@ -10,6 +10,7 @@
 //   ahbm   the hidden AHBM state (busy flag; per channel unit/burst/direction/DMA channel, the burst FIFO with its
 //          pending words, write_burst_start),  ext  number and digest of the external-memory callbacks made
 //          since the previous observation (reads return a hash of the address, so stale burst words show)
+//   memown whether the DSP memory is the instance's own allocation (instances are created without user memory)
 //   mem    number of non-zero bytes of DSP memory and the first few of them
 // Lines: New(kind) / Hist(n ops, digest) / Reset / Obs(when, o).  `when` tells the specification which rule
 // applies: "fresh" (constructed, not reset), "fresh_reset", "dirty", "reset" (history, then Reset()).
@@ -24,6 +25,21 @@
 
 using namespace Teakra;
 using vlayout::NREG;
+
+// every allocation made through operator new starts out filled with junk (byte from VERIF_NEW_FILL, default 0xA5): whatever
+// an object does not initialise itself is visibly dirty, independently of what the allocator happens to recycle or clear
+static unsigned char g_new_fill = 0xA5;
+void* operator new(std::size_t n) {
+    void* p = std::malloc(n ? n : 1);
+    if (!p) throw std::bad_alloc();
+    std::memset(p, g_new_fill, n);
+    return p;
+}
+void* operator new[](std::size_t n) { return operator new(n); }
+void operator delete(void* p) noexcept { std::free(p); }
+void operator delete[](void* p) noexcept { std::free(p); }
+void operator delete(void* p, std::size_t) noexcept { std::free(p); }
+void operator delete[](void* p, std::size_t) noexcept { std::free(p); }
 
 static void pollute_heap(vh::Rng& rng) {
     std::vector<void*> blocks;
@@ -143,6 +159,12 @@ static std::string observe(Inst& in) {
     int ex[3] = {(int)in.ext_n, (int)(in.ext_h >> 16), (int)(in.ext_h & 0xFFFF)};
     o += ",\"ext\":" + vh::arr(ex, ex + 3);
     in.ext_n = 0; in.ext_h = 0;
+    // an instance created without user memory works on memory it owns (not on whatever a stray pointer designates)
+    {
+        auto& sm = in.impl().shared_memory;
+        int own = sm.own_memory && sm.raw == sm.own_memory->data() && in.t->GetDspMemory() == sm.raw ? 1 : 0;
+        o += ",\"memown\":[" + std::to_string(own) + "]";
+    }
     const u8* mem = in.t->GetDspMemory();
     long nz = 0;
     std::vector<int> first;
@@ -199,6 +221,7 @@ int main(int argc, char** argv) {
     vh::install_fault_handlers(&o);
     vh::silence_stdout();
     vh::Rng rng(a.seed);
+    if (const char* f = std::getenv("VERIF_NEW_FILL")) g_new_fill = (unsigned char)std::strtoul(f, nullptr, 0);
     // reference: the very first instance of a pristine process, constructed and reset
     {
         Inst ref; ref.make(); ref.reset();
